@@ -2,3 +2,4 @@
 import AJ.Props.C16
 import AJ.Props.C16Seq
 import AJ.Props.C09Doc
+import AJ.Props.SlotCor
